@@ -14,6 +14,12 @@ Theorem C11_facts_known : vars_facts_known = true.
 Proof. exact eq_refl. Qed.
 Print Assumptions C11_facts_known.
 
+(* getVariables gets every ast.Var by value, but Var.Sh is a *string owned by the definition in
+   the merged Taskfile: nothing in getVariables assigns through a pointer *)
+Theorem C11_get_variables_no_pointer_write : GetVariablesWritesThroughPointer = false.
+Proof. exact eq_refl. Qed.
+Print Assumptions C11_get_variables_no_pointer_write.
+
 (* ---------- the dynamic-variable cache ---------- *)
 
 (* Full statement.  The shell is a function of (text, dir, env) (w_sh).  If its
